@@ -36,7 +36,9 @@ let run_fcase id content hspec (lines : string list) =
   List.iteri (fun i (o, r) ->
       Printf.printf "M %s#%d %s\n" id i (Fsdriver.canon_res r);
       Printf.printf "M %s#%d/p %s\n" id i (Fsdriver.canon_pres (proj o r))) (List.combine ops outs);
-  List.iteri (fun i p -> Printf.printf "S %s#%d/p %s\n" id i (Fsdriver.canon_pres p)) souts
+  List.iteri (fun i p -> Printf.printf "S %s#%d/p %s\n" id i (Fsdriver.canon_pres p)) souts;
+  if Sys.getenv_opt "VERIF_DIGEST" <> None then
+    Printf.printf "D %s %s\n" id (Fsdriver.n_to_string (fcase_digest c spec ops))
 
 let () =
   Registry.register_line "contains" run_contains;
